@@ -466,9 +466,13 @@ impl Scenario for TdScen {
                         _ => rng.range(2, (2 * k as u64).min(60)),
                     } as usize;
                     let base = (rng.f64() - 0.5) * 200.0;
+                    // one image in six has means near the largest finite magnitudes, on both sides
+                    // of zero (differences of two of them overflow)
+                    let extreme = rng.chance(1, 6);
                     let mut cents: Vec<(u64, u64)> = vec![];
                     for i in 0..n {
                         let m = base + i as f64 * (0.5 + rng.f64()) + if rng.chance(1, 6) { 0.0 } else { rng.f64() * 0.1 };
+                        let m = if extreme { m * 9e305 } else { m };
                         let w = match rng.below(4) {
                             0 => 1,
                             1 => rng.range(2, 10),
@@ -482,7 +486,9 @@ impl Scenario for TdScen {
                         2 => { let i = rng.usize_below(n); for (j, c) in cents.iter_mut().enumerate() { c.1 = if j == i { 1000 } else { 1 }; } } // one heavy plus singletons
                         _ => {}
                     }
-                    acts.push(Act::Foreign { to: rng.below(nn as u64) as u8, kk: k, cents, pad_min: rng.chance(2, 3), pad_max: rng.chance(2, 3), form: rng.below(4) as u8 });
+                    // (such means do not survive the f32 encodings)
+                    let form = if extreme { 2 * rng.below(2) as u8 } else { rng.below(4) as u8 };
+                    acts.push(Act::Foreign { to: rng.below(nn as u64) as u8, kk: k, cents, pad_min: rng.chance(2, 3), pad_max: rng.chance(2, 3), form });
                 }
                 _ => acts.push(Act::Check { n: rng.below(nn as u64) as u8 }),
             }
@@ -687,6 +693,9 @@ impl Scenario for TdScen {
                         _ => codec::Form::CompatFloat,
                     };
                     let f32ish = matches!(form, codec::Form::NativeF32 | codec::Form::CompatFloat);
+                    if f32ish && cs.iter().any(|c| c.0.abs() > 1e38) {
+                        continue; // not representable in the f32 encodings
+                    }
                     if f32ish {
                         // values must survive the f32 encoding exactly; weights must fit the encoding
                         for c in cs.iter_mut() {
@@ -701,11 +710,12 @@ impl Scenario for TdScen {
                     // min / max: beyond the extreme means when those centroids are heavy
                     let mut mn = cs[0].0;
                     let mut mx = cs[cs.len() - 1].0;
+                    let huge = mn.abs().max(mx.abs()) > 1e300;
                     if *pad_min && cs[0].1 > 1 {
-                        mn -= 1.5;
+                        mn = if huge { -f64::MAX } else { mn - 1.5 };
                     }
                     if *pad_max && cs[cs.len() - 1].1 > 1 {
-                        mx += 1.5;
+                        mx = if huge { f64::MAX } else { mx + 1.5 };
                     }
                     if f32ish {
                         mn = mn as f32 as f64;
